@@ -16,6 +16,7 @@ int main(int argc, char** argv) {
     const int tcounts[] = {2, 4, 8};
     for (const auto& kv : dz::kinds()) {
         if (!only.empty() && only != kv.first) continue;
+        dz::enter_kind(kv.first);
         for (int p = 0; p < 2; ++p) {
             std::unique_ptr<dz::Box> shared(kv.second(p));
             const dz::Box& S = *shared;
@@ -30,6 +31,7 @@ int main(int argc, char** argv) {
                             if (dz::fnv(S.probe()) != seq) good = false;
                             std::unique_ptr<dz::Box> c(S.copy());          // copy-construction from the shared object
                             if (dz::fnv(c->probe()) != seq) good = false;
+                            (void)c->xprobe(S);                             // elements of the shared object used through the copy
                         }                                                   // … and destruction of the copy
                         if (good) ok++;
                     });
